@@ -309,6 +309,8 @@ def clause_g(ctx, P):
 
 
 def run(ctx, P):
+    from . import f5
+    f5.check_map_key_consistency(ctx, P, "C06i.F5.name-changes-keys", "name_changes", "DnsRegistry")
     f4.check_service_selected_by_resolved_name(ctx, P, "C06h")
     clause_g(ctx, P)
     clause_a(ctx, P)
